@@ -54,6 +54,13 @@ theorem runCalls_inv (cs : List Call) : ∀ c, Inv c → Inv (runCalls c cs) := 
 
 theorem reachable_inv (cs : List Call) : Inv (runCalls empty cs) := runCalls_inv cs _ inv_empty
 
+/-- a constructor runs at Build only if one of its descriptors is in the list Build iterates -/
+theorem buildRuns_sound (l : List Desc) (n : Nat) (h : n ∈ buildRuns l) : ∃ d ∈ l, d.ctor = n := by
+  unfold buildRuns at h
+  simp only [List.mem_map, List.mem_filter] at h
+  obtain ⟨d, ⟨hd, _⟩, rfl⟩ := h
+  exact ⟨d, hd, rfl⟩
+
 /-! ### references -/
 
 theorem modify_fst {α} (h : Heap) (r : CollRef) (f : Coll → Coll × α) :
